@@ -472,6 +472,25 @@ def monitorC15 (cx : Ctx) : List Finding := Id.run do
         if n.toNat?.getD 0 < MIN_RECOMMENDATION then
           out := mkF cx "C15" "recommendation-min" s.sid 0 s!"{e} below the minimum {MIN_RECOMMENDATION}" :: out
       | _ => pure ()
+    -- every drained recommendation must carry the frames_ahead() value of one of the
+    -- advance_frame calls since the previous drain, and that value must be at least the minimum
+    let mut aheads : List Int := []
+    for c in cx.sc.calls do
+      if c.sid != s.sid then continue
+      if c.isAdvOk then aheads := (c.snapInt "ahead").getD 0 :: aheads
+      if c.call == ["events"] then
+        match words c.result with
+        | ["ev", evs'] =>
+          for e in evs'.splitOn ";" do
+            match e.splitOn ":" with
+            | ["WaitRecommendation", n] =>
+              let n : Int := (n.toNat?.getD 0 : Nat)
+              if !(aheads.contains n) then
+                out := mkF cx "C15" "recommendation-value" s.sid c.lineNo
+                  s!"{e}: no advance_frame call since the last drain had frames_ahead() = {n} (values seen: {aheads.eraseDups})" :: out
+            | _ => pure ()
+        | _ => pure ()
+        aheads := []
     -- emission points: calls where the queue grew by a recommendation (frames_ahead is in the snapshot)
     let mut lastRecFrame : Option Int := none
     let mut prevEvq : Int := 0
@@ -559,7 +578,10 @@ def runMonitor2 (prop : String) (cx : Ctx) : List Finding :=
   match prop with
   | "C05" => monitorC05 cx
   | "C06" => monitorC06 cx ++ monitorPanics cx "C06"
-  | "C07" => monitorC07 cx ++ (if cx.p2p.length == 2 then monitorPanics cx "C07" else [])
+  | "C07" => monitorC07 cx ++ (if cx.p2p.length == 2 then monitorPanics cx "C07" else []) ++
+      -- "spectators of that host see the same"
+      ((monitorC06 cx).filterMap fun f =>
+        if f.clause == "replay" || f.clause == "status" then some { f with prop := "C07", clause := s!"spectator-{f.clause}" } else none)
   | "C08" => monitorC08 cx
   | "C09" => monitorC09 cx
   | "C10" => monitorC10 cx
